@@ -11,8 +11,8 @@ import (
 	"testing"
 	"time"
 
+	"github.com/bfenetworks/bfe/bfe_balance"
 	"github.com/bfenetworks/bfe/bfe_balance/backend"
-	"github.com/bfenetworks/bfe/bfe_balance/bal_slb"
 	"github.com/bfenetworks/bfe/bfe_config/bfe_cluster_conf/cluster_conf"
 	"pgregory.net/rapid"
 
@@ -49,6 +49,10 @@ type c06Round struct {
 	// Release: "" none; "held:j" while probe j is held; "after:j" right after answering probe j;
 	// "avail" while in rotation before the events (then the events run against the released backend)
 	Release string
+	// How the reload removes the backend: "" / "backend" = its entry leaves the sub-cluster's list,
+	// "sub-from-table" = its sub-cluster leaves cluster_table.data but stays in gslb.data,
+	// "sub-from-gslb" = its sub-cluster leaves gslb.data, "cluster" = its cluster leaves both files
+	How string `json:",omitempty"`
 }
 
 type c06Scenario struct {
@@ -213,7 +217,7 @@ type c06Run struct {
 	tcpN     atomic.Int64
 	tcpAllowed int64
 	cluster  string
-	brr      *bal_slb.BalanceRR
+	port     int
 	back     *backend.BfeBackend
 	m        c06Model
 	countOK  bool
@@ -319,7 +323,7 @@ func (r *c06Run) release1() { r.cs.gate <- struct{}{} }
 func (r *c06Run) round(ri int, rd c06Round) (done bool, v *c06Verdict) {
 	ctx := func(s string, a ...any) string { return fmt.Sprintf("round %d: ", ri) + fmt.Sprintf(s, a...) }
 	if rd.Release == "avail" {
-		r.removeByReload()
+		r.removeByReload(rd.How)
 		r.class("release-while-in-rotation")
 	}
 	base, _, _ := r.cs.count()
@@ -393,13 +397,13 @@ func (r *c06Run) round(ri int, rd c06Round) (done bool, v *c06Verdict) {
 		}
 		if rd.Release == fmt.Sprintf("held:%d", k) {
 			r.class("release-while-probe-held")
-			r.removeByReload()
+			r.removeByReload(rd.How)
 			return true, r.afterRelease(base+k, tcpBase, 0, ctx("removed while probe %d held", k))
 		}
 		r.release1()
 		if rd.Release == fmt.Sprintf("after:%d", k) && k != R {
 			r.class("release-between-probes")
-			r.removeByReload()
+			r.removeByReload(rd.How)
 			n, _, _ := r.cs.count()
 			return true, r.afterRelease(n, tcpBase, 1, ctx("removed after probe %d", k))
 		}
@@ -469,13 +473,52 @@ func (r *c06Run) roundTCP(ri int, rd c06Round, rest string, tcpBase int64) (bool
 	return false, nil
 }
 
-// removeByReload removes the backend from its sub-cluster through BalanceRR.Update.
-func (r *c06Run) removeByReload() {
-	keep, err := loadSub(subConf{{Name: "other", Addr: "127.0.0.2", Port: r.srv.port, Weight: 1}})
+// c06Table is the process-wide BalTable (one per process, as in bfe); every case
+// owns one cluster of it.
+var c06Table *bfe_balance.BalTable
+
+func (r *c06Run) pair(how string) (gslbConf, tableConf) {
+	target := beConf{Name: "target", Addr: "127.0.0.1", Port: r.port, Weight: 1}
+	other := beConf{Name: "other", Addr: "127.0.0.2", Port: r.srv.port, Weight: 1}
+	other2 := beConf{Name: "other2", Addr: "127.0.0.3", Port: r.srv.port, Weight: 1}
+	g := gslbConf{r.cluster: {"s0": 1, "s1": 1}}
+	t := tableConf{r.cluster: {"s0": {target, other}, "s1": {other2}}}
+	switch how {
+	case "initial":
+	case "sub-from-table":
+		delete(t[r.cluster], "s0")
+	case "sub-from-gslb":
+		delete(g[r.cluster], "s0")
+	case "cluster", "empty":
+		g, t = gslbConf{}, tableConf{}
+	default: // "backend"
+		t[r.cluster]["s0"] = subConf{other}
+	}
+	return g, t
+}
+
+func (r *c06Run) reloadTable(how string) error {
+	g, t := r.pair(how)
+	gl, tl, err := c06Table.BalTableConfLoad(writeGslbFile(g, how), writeTableFile(t, how))
 	if err != nil {
+		return err
+	}
+	var rerr error
+	if p := ev.Try(func() { rerr = c06Table.BalTableReload(gl, tl) }); p != nil {
+		return fmt.Errorf("panic: %v", p)
+	}
+	return rerr
+}
+
+// removeByReload removes the backend through a gslb/cluster_table reload of the table.
+func (r *c06Run) removeByReload(how string) {
+	if how == "" {
+		how = "backend"
+	}
+	r.class("removed-by:" + how)
+	if err := r.reloadTable(how); err != nil {
 		panic(err)
 	}
-	r.brr.Update(keep)
 	r.released = true
 }
 
@@ -541,16 +584,21 @@ func c06Execute(sc c06Scenario, srv *c06Server) (v *c06Verdict, classes map[stri
 	c06Confs.Store(r.cluster, chk)
 	defer c06Confs.Delete(r.cluster)
 
-	loaded, err := loadSub(subConf{{Name: "target", Addr: "127.0.0.1", Port: port, Weight: 1}, {Name: "other", Addr: "127.0.0.2", Port: srv.port, Weight: 1}})
-	if err != nil {
-		return c06Inconclusive("cluster table rejected: " + err.Error()), r.classes
+	r.port = port
+	if err := r.reloadTable("initial"); err != nil {
+		return c06Inconclusive("initial pair rejected: " + err.Error()), r.classes
 	}
-	r.brr = bal_slb.NewBalanceRR("s0")
-	r.brr.Init(loaded)
-	for _, b := range r.brr.VerifBal2Backends() {
-		if b.Name == "target" {
-			r.back = b
+	if bal, err := c06Table.Lookup(r.cluster); err == nil {
+		for _, sub := range bal.VerifBal2SubClusters() {
+			for _, b := range sub.RR.VerifBal2Backends() {
+				if b.Name == "target" {
+					r.back = b
+				}
+			}
 		}
+	}
+	if r.back == nil {
+		return c06Inconclusive("target backend not found after the initial reload"), r.classes
 	}
 	r.countOK = waitCheckers(0, 5*time.Second)
 	if !r.countOK {
@@ -559,9 +607,7 @@ func c06Execute(sc c06Scenario, srv *c06Server) (v *c06Verdict, classes map[stri
 	defer func() {
 		// leave no checker behind
 		r.cs.setAuto()
-		if !r.released {
-			ev.Try(func() { r.brr.Release() })
-		}
+		ev.Try(func() { r.reloadTable("empty") })
 		waitCheckers(0, 5*time.Second)
 	}()
 	if v := r.checkAvail("initial"); v != nil {
@@ -651,6 +697,9 @@ func c06Gen(rt *rapid.T) c06Scenario {
 			case 2:
 				rd.Release = "avail"
 			}
+			if rd.Release != "" {
+				rd.How = rapid.SampledFrom([]string{"backend", "sub-from-table", "sub-from-gslb", "cluster", "sub-from-table"}).Draw(rt, l+"-how")
+			}
 		}
 		sc.Rounds = append(sc.Rounds, rd)
 		if rd.Release != "" {
@@ -716,7 +765,7 @@ func c06Check(tb ev.TB, rec *ev.Rec, srv *c06Server, sc c06Scenario, origin stri
 
 func TestC06(t *testing.T) {
 	rec := ev.New("C06", "scenarios: FailNum 1..5, SuccNum 1..4, CheckInterval 1..3 ms, 1..2 rounds of request outcomes (S/F, optional concurrent crossing by 2..8 goroutines, outcomes of in-flight requests while out of rotation), scripted probe outcomes served by a harness server that holds every probe, removal by reload while in rotation / while a probe is held / between probes; exhaustive sweeps of short outcome sequences and probe scripts. non-trivial: the consumed part of a probe script contains a fail after >=1 pass (succNum reset) or the crossing is concurrent. distinct by scenario encoding")
-	backend.SetCheckConfFetcher(c06Fetch) // once per process, like NewBalTable in bfe
+	c06Table = bfe_balance.NewBalTable(c06Fetch) // once per process, as in bfe (installs the fetcher)
 	srv := newC06Server(t)
 	defer srv.ln.Close()
 	rec.Set("race_detector", raceEnabled)
